@@ -29,7 +29,7 @@ def gen(ctx):
         from ..gen import skel
     except ImportError:
         return {"obligations": 0, "note": "harness.gen.skel not available"}
-    return skel.generate(core.REPO)
+    return skel.generate(core.REPO, core.LEAN_DIR)
 
 
 def run(ctx):
